@@ -24,6 +24,9 @@ ASSUMPTIONS = [
     'have finished or are parked too, and comparing every per-message observation with the model',
 ]
 
+# hashes of the anchored files when the model was last reviewed against them (drift never fails the check)
+REVIEWED = {'message/router/middleware/poison.go': '149bca745534', 'message/router_context.go': 'da0b90283f57'}
+
 def nlist(l):
     return C.coq_list([C.coq_N(x) for x in l])
 
@@ -119,6 +122,8 @@ def run(ctx):
     strings = data['strings']
     if strings[1:6] != ['reason_poisoned', 'topic_poisoned', 'handler_poisoned', 'subscriber_poisoned', 'cannot publish message to poison queue']:
         raise C.CheckError('interner does not start with the documented literals')
+    now = C.anchor_hashes(sorted(REVIEWED))
+    res.extra['anchor_drift'] = {f: dict(reviewed=REVIEWED[f], now=now.get(f), drifted=now.get(f) != REVIEWED[f]) for f in sorted(REVIEWED)}
     res.extra['rendezvous_timeouts'] = data['timeouts']
     res.extra['forced_overlaps'] = dict(batches_with_2_to_8_in_flight=data['batches'], all_parked_or_finished_together=data['batches_met'])
     for s in data['stray'] or []:
@@ -146,6 +151,9 @@ def run(ctx):
             continue
         good.append(c)
         pubs = [e for e in c['trace'] if e[0] == 'ppublish']
+        if any(not e[4] for e in pubs):
+            res.mismatches.append(dict(kind='the message passed to the poison publisher is not the consumed object (Handler/Poison.v publishes the object itself; the property only fixes its content)',
+                                       explained_by_violation=False, case=describe(c, strings)))
         if d['handler_outcome'] != 'returns' or c['acts'] or c['pre']:
             res.nontrivial.add((d['mode'], d['filter'], d['poison_publisher'], d['handler_outcome'], d['handler_error'], d['metadata'], c['pre'],
                                 str(d['acts']), str(d['outs']), d['router_publisher'] if c['router'] else '', d['handler'], d['poison_topic']))
